@@ -242,11 +242,19 @@ func (b *Builder) resolvePending(ctx context.Context) (diags Diagnostics) {
 		// If anything we do here generates any errors then the bundle
 		// directory is in an inconsistent state and must not be used
 		// any further. This will make all subsequent calls panic.
-		if diags.HasErrors() {
+		// A panic in one of the caller's callbacks (fetcher, registry
+		// client, dependency finder) leaves it just as inconsistent - a
+		// half-fetched package directory, for one - if the caller recovers
+		// from it.
+		panicking := recover()
+		if panicking != nil || diags.HasErrors() {
 			b.targetDir = ""
 		}
 
 		b.mu.Unlock()
+		if panicking != nil {
+			panic(panicking)
+		}
 	}()
 
 	trace := buildTraceFromContext(ctx)
